@@ -11,7 +11,7 @@ Set Warnings "-notation-overridden,-ambiguous-paths".
 From mathcomp Require Import all_ssreflect all_algebra all_real_closed.
 From mathcomp Require Import ssrZ.
 Set Warnings "notation-overridden,ambiguous-paths".
-From LP Require Import UPolySpec RefAlgSpec RefAlgLoops RefAlgOps RefAlgDet RefAlgAnn RefAlgArith RefAlgSqfree RefAlgFinal RefAlgRoots RefAlgRat.
+From LP Require Import UPolySpec RefAlgSpec RefAlgLoops RefAlgOps RefAlgDet RefAlgAnn RefAlgArith RefAlgSqfree RefAlgFinal RefAlgRoots RefAlgRat RefAlgPow.
 Import GRing.Theory Num.Theory.
 Local Open Scope ring_scope.
 
@@ -312,3 +312,9 @@ Theorem Base_rn_to_rational : forall (R : rcfType) (fuel : nat) (x : rnum) (v : 
   rn_denotes x v -> rn_to_rational fuel x = Some q -> qpos q /\ v = qr q.
 Proof. exact: rn_to_rational_spec. Qed.
 Print Assumptions Base_rn_to_rational.
+
+(* the direct power x^n (annihilator Res_t(p(t), z - t^n), enclosure by the powers of the interval ends) *)
+Theorem Base_rn_pow_direct : forall (R : rcfType) (fuel : nat) (x z : rnum) (a : R) (n : nat),
+  rn_denotes x a -> rn_pow_direct fuel x n = Some z -> rn_denotes z (a ^+ n).
+Proof. exact: rn_pow_direct_spec. Qed.
+Print Assumptions Base_rn_pow_direct.
